@@ -12,6 +12,7 @@ mod sddhist;
 mod semi;
 mod tt;
 mod walk;
+mod witness;
 
 use ctx::Ctx;
 use std::collections::{BTreeMap, HashSet};
